@@ -19,23 +19,19 @@ Inductive pd : Type :=
 
 Inductive pschema := PBasic | PDetailed.
 
-Fixpoint pd_eqb (a b : pd) : bool :=
-  let list_eqb := fix go (x y : list pd) : bool :=
+Definition list_eqb {A} (f : A -> A -> bool) : list A -> list A -> bool :=
+  fix go (x y : list A) : bool :=
     match x, y with
     | [], [] => true
-    | a :: x', b :: y' => pd_eqb a b && go x' y'
+    | a :: x', b :: y' => f a b && go x' y'
     | _, _ => false
-    end in
+    end.
+Fixpoint pd_eqb (a b : pd) : bool :=
   match a, b with
-  | PConstr n x, PConstr m y => (n =? m)%Z && list_eqb x y
+  | PConstr n x, PConstr m y => (n =? m)%Z && list_eqb pd_eqb x y
   | PMap x, PMap y =>
-      (fix go (x y : list (pd * list pd)) : bool :=
-         match x, y with
-         | [], [] => true
-         | (ka, va) :: x', (kb, vb) :: y' => pd_eqb ka kb && list_eqb va vb && go x' y'
-         | _, _ => false
-         end) x y
-  | PList x, PList y => list_eqb x y
+      list_eqb (fun p q => match p, q with (ka, va), (kb, vb) => pd_eqb ka kb && list_eqb pd_eqb va vb end) x y
+  | PList x, PList y => list_eqb pd_eqb x y
   | PInt x, PInt y => (x =? y)%Z
   | PBytes x, PBytes y => bytes_eqb x y
   | _, _ => false
